@@ -190,6 +190,8 @@ def judge(out, beh):
         else:
             what = 'final-state'
         mo['last'] = real2['last']          # _ltid is not recomputed by a pack (see ZStorage.ltid)
+        mo.pop('linv', None)
+        mo.pop('riter', None)
         sd.diff('obs', mo, real2, mm)
         if mm:
             v.append(({'kind': 'sched', 'what': what, 'when': 'in-memory' if label == 'obs' else 'after-reopen'},
